@@ -414,6 +414,17 @@ def check_transform(fns, what, bad):
         elif any(x == N and 'ParsedObject' in ty for x, ty in pos):
             kinds.add('object')
             loops = [s for s in p.steps if s[0] == 'LOOP']
+            early = False
+            for s in p.steps:
+                if s[0] == 'LOOP':
+                    break
+                for t in ([s[3]] if s[0] == 'E' else [s[1]] if s[0] in ('X', 'T') else []):
+                    if t is not None and any(isinstance(x, tuple) and x[:2] == ('CALL', CB) for x in P.subterms(t)):
+                        early = True
+            if early:
+                bad('C16-postorder', f'{what}: the callback is applied to a node before its children are '
+                                     f'transformed (the parent must be rebuilt from transformed children first)')
+                continue
             if len(loops) != 1:
                 raise AnalysisError(f'{what}: _transform object branch has {len(loops)} loops')
             lp = loops[0]
